@@ -38,7 +38,7 @@ bool tagUnitsMatchRefsUnits::operator()(const std::vector<DataArray> &references
                     }
                 }
             } else {
-                match = !tu.empty() || tu != "none";
+                match = match && (!tu.empty() || tu != "none");
             }
         }
         if (!match)
